@@ -196,7 +196,7 @@ func (h *H) checkQP3(id string, seedIdx, m, n int, cls string, deep bool) {
 			// short-reflector defect (see checkBlockReflector) under Dgeqp3
 			// signatures on some seeds only.
 			if r.fixed && (j+seedIdx)%3 == 0 && j < k {
-				jin[j] = 0 // any value >= 0 marks a leading column
+				jin[j] = (j*7 + ri) % n // any value in [0,n) marks a leading column
 				nfixed++
 			}
 		}
